@@ -112,6 +112,17 @@ def eval_cancel(ctx):
         res["refused"] = (exc.kind, dict(obj._tracked_jobs))
     except Unsupported as exc:
         res["refused"] = (f"<{exc}>", {})
+    # job ids are opaque: the local pool's first task has id 0 (falsy)
+    _tb, obj = tracking_backend(ctx, {"T": 0, "X": 1}, {0: S("RUNNING")})
+    got0 = []
+    interp = PureInterp(ctx, hooks={"attr:cancel_job": lambda recv, jid: got0.append(jid)})
+    try:
+        interp.call(m, (Obj("target", name="T"),), {}, self_obj=obj)
+        res["zero"] = list(got0)
+    except Raised as exc:
+        res["zero"] = f"raises {exc.kind}"
+    except Unsupported as exc:
+        res["zero"] = f"<{exc}>"
     _tb, obj = tracking_backend(ctx, {"T": tok("ID")}, {})
     interp = PureInterp(ctx, hooks={"attr:cancel_job": lambda recv, jid: None})
     try:
@@ -1037,14 +1048,14 @@ def eval_local_client(ctx):
     out = {}
     answers.append(_json.dumps({"__kind__": "task_enqueued", "tid": 55}) + "\n")
     try:
-        out["submit"] = interp.call(idx.method(ops_ci, "submit_target"), (Obj("target", name="N", spec="S", working_dir="/w"), [3, 4]), {}, self_obj=ops)
+        out["submit"] = interp.call(idx.method(ops_ci, "submit_target"), (Obj("target", name="N", spec="S", working_dir="/w"), [0, 3]), {}, self_obj=ops)
     except (Raised, Unsupported) as exc:
         out["submit"] = f"<{type(exc).__name__}: {exc}>"
     out["submit_sent"] = list(sent)
     out["submit_io"] = list(flushed)
     del sent[:], flushed[:]
     try:
-        out["cancel"] = interp.call(idx.method(ops_ci, "cancel_job"), (9,), {}, self_obj=ops)
+        out["cancel"] = interp.call(idx.method(ops_ci, "cancel_job"), (0,), {}, self_obj=ops)
     except (Raised, Unsupported) as exc:
         out["cancel"] = f"<{type(exc).__name__}: {exc}>"
     out["cancel_sent"] = list(sent)
@@ -1058,10 +1069,11 @@ def local_client_witness(ctx):
     for k in ("submit", "cancel"):
         if isinstance(out[k], str) and out[k].startswith("<Unsupported"):
             return 0, diffs, out[k]
-    want = {"name": "N", "script": "S", "working_dir": "/w", "deps": [3, 4]}
+    want = {"name": "N", "script": "S", "working_dir": "/w", "deps": [0, 3]}
     ss = out["submit_sent"]
     if len(ss) != 1 or ss[0][0] != "enqueue_task" or {k: v for k, v in ss[0][1].items() if k != "time_limit"} != want or ss[0][1].get("time_limit") is not None:
-        diffs.append(f"submitting target N with prerequisites [3, 4] sends {ss}; expected one enqueue_task carrying name, script, working_dir and deps=[3, 4]")
+        diffs.append(f"submitting target N with prerequisites [0, 3] (the pool numbers its tasks from 0) sends {ss}; expected one enqueue_task carrying name, script, "
+                     "working_dir and deps=[0, 3]: a dropped id lets the task start before that prerequisite finished")
     if out["submit"] != 55:
         diffs.append(f"the pool answers task_enqueued tid=55 but submit_target returns {out['submit']!r}: a wrong id would be tracked for the target")
     for k in ("submit_io", "cancel_io"):
@@ -1069,8 +1081,8 @@ def local_client_witness(ctx):
         if [e[0] for e in io] != ["write", "flush"]:
             diffs.append(f"the request is not written and flushed to the socket ({[e[0] for e in io]}): it never reaches the pool")
     cs = out["cancel_sent"]
-    if cs != [("cancel_task", {"tid": 9})]:
-        diffs.append(f"cancelling job 9 sends {cs}; expected one cancel_task with tid=9")
+    if cs != [("cancel_task", {"tid": 0})]:
+        diffs.append(f"cancelling job 0 (the pool's first task) sends {cs}; expected one cancel_task with tid=0")
     return 2, diffs, None
 
 
